@@ -733,6 +733,70 @@ class Rewriter:
             total += n
         return code
 
+    # ---- R7b: `let NAME[: TYPE] = SRC.into_iter().map(|P| BODY).collect();` (SRC a local, consumed; also `SRC.iter()`,
+    #           `.filter(|q| C)` in front of the map, and `.filter_map(|P| OPT)`)
+    #           -> `let mut NAME[: TYPE] = Vec::new(); for P in SRC { NAME.push(BODY); }`   (the definition of map + collect)
+    def map_collect_loops(self, code):
+        n = 0
+        pos = 0
+        while True:
+            m = mask(code)
+            mm = re.compile(r'(?<![A-Za-z0-9_])let\s+(?:mut\s+)?([a-z_][a-z0-9_]*)\s*(:\s*[^=;]+?)?\s*=\s*([a-z_][a-z0-9_]*(?:\s*\.\s*[a-z_][a-z0-9_]*)*?)\s*\.\s*(into_iter|iter)\s*\(\s*\)\s*\.\s*(map|filter|filter_map)\s*\(\s*\|').search(m, pos)
+            if not mm:
+                break
+            borrowing = mm.group(4) == 'iter'
+            opname = mm.group(5)
+            mm = _Groups(mm, {1: 1, 2: 2, 3: 3, 4: 5})
+            keep = None
+            if mm.group(4) == 'filter':
+                # `.filter(|q| COND)` in front of the map: the element is kept when COND holds of a reference to it
+                fb1 = mm.end() - 1
+                fb2 = m.index('|', fb1 + 1)
+                fop = m.rfind('(', 0, fb1 + 1)
+                fcp = match_close(m, fop)
+                nxt = re.match(r'\s*\.\s*map\s*\(\s*\|', m[fcp + 1:])
+                q = code[fb1 + 1:fb2].strip()
+                if not nxt or not re.match(r'^[a-z_][a-z0-9_]*$', q):
+                    pos = fcp
+                    continue
+                keep = (q, code[fb2 + 1:fcp].strip())
+                bar1 = fcp + 1 + nxt.end() - 1
+            else:
+                bar1 = mm.end() - 1
+            bar2 = m.index('|', bar1 + 1)
+            op = m.rfind('(', 0, bar1 + 1)
+            cp = match_close(m, op)
+            tail = re.match(r'\s*\.\s*collect\s*(::\s*<[^()]*>)?\s*\(\s*\)\s*;', m[cp + 1:])
+            if not tail:
+                pos = cp
+                continue
+            name, ty, src = mm.group(1), (mm.group(2) or ''), mm.group(3)
+            if not ty and tail.group(1):
+                ty = ': ' + code[cp + 1:][tail.start(1):tail.end(1)].strip()[2:].strip()[1:-1]
+            param = code[bar1 + 1:bar2].strip()
+            body = code[bar2 + 1:cp].strip()
+            if body.endswith(','):
+                body = body[:-1].strip()
+            if keep is not None and not re.match(r'^[a-z_][a-z0-9_]*$', param):
+                pos = cp
+                continue
+            src = re.sub(r'\s+', '', src)
+            if borrowing:
+                src = src + '.iter()'
+            if opname == 'filter_map':
+                # the closure yields an Option: its value is pushed when there is one
+                rep = 'let mut %s%s = Vec::new(); for %s in %s { if let Some(v__) = %s { %s.push(v__); } }' % (name, (' ' + ty.strip()) if ty else '', param, src, body, name)
+            elif keep is None:
+                rep = 'let mut %s%s = Vec::new(); for %s in %s { %s.push(%s); }' % (name, (' ' + ty.strip()) if ty else '', param, src, name, body)
+            else:
+                rep = ('let mut %s%s = Vec::new(); for %s in %s { let keep__ = { let %s = &%s; %s }; if keep__ { %s.push(%s); } }'
+                       % (name, (' ' + ty.strip()) if ty else '', param, src, keep[0], param, keep[1], name, body))
+            code = code[:mm.start()] + rep + code[cp + 1 + tail.end():]
+            pos = mm.start() + len(rep)
+            n += 1
+        self.note('let v = src.into_iter().map(|x| e).collect(); -> push loop', n)
+        return code
+
     # ---- R7: while let
     def while_let(self, code):
         n = 0
@@ -1139,6 +1203,35 @@ class Rewriter:
         self.note('for (i, x) in v.iter().enumerate() with i used only in messages -> for x in &v', n)
         return code
 
+    # ---- R12b: `for X in V.iter().skip(N) { B }` (V a local or a place) -> counter loop starting at N
+    def iter_skip_loops(self, code):
+        n = 0
+        while True:
+            m = mask(code)
+            mm = re.search(r'(?<![A-Za-z0-9_])for\s+([a-z_][a-z0-9_]*)\s+in\s+([a-z_][a-z0-9_.]*)\s*\.\s*iter\s*\(\s*\)\s*\.\s*skip\s*\(([^()]*)\)\s*\{', m)
+            if not mm:
+                break
+            var, seq, skip = mm.group(1), mm.group(2), mm.group(3).strip()
+            ob = mm.end() - 1
+            cb = match_close(m, ob)
+            inner = code[ob + 1:cb]
+            im = mask(inner)
+            if re.search(r'(?<![A-Za-z0-9_])continue(?![A-Za-z0-9_])', im):
+                if re.search(r'(?<![A-Za-z0-9_.])(for|while|loop)(?![A-Za-z0-9_])', im):
+                    raise ExtractError('skip loop with `continue` and an inner loop cannot become a counter loop')
+                out, last = '', 0
+                for cm_ in re.finditer(r'(?<![A-Za-z0-9_])continue\s*;', im):
+                    out += inner[last:cm_.start()] + '{ k__%d += 1; continue; }' % n
+                    last = cm_.end()
+                inner = out + inner[last:]
+            k = 'k__%d' % n
+            rep = ('{ let mut %s: usize = %s; while %s < %s.len() /*@auto invariant %s >= %s; decreases %s.len() - %s*/ { let %s = &%s[%s]; %s\n %s += 1; } }'
+                   % (k, skip, k, seq, k, skip, seq, k, var, seq, k, inner, k))
+            code = code[:mm.start()] + rep + code[cb + 1:]
+            n += 1
+        self.note('for x in v.iter().skip(s) -> counter loop', n)
+        return code
+
     # ---- R8: local `const NAME: &[&str] = &[...]` -> `let NAME: Vec<&'static str> = vec![...]`
     def local_const_strs(self, code):
         n = 0
@@ -1173,6 +1266,7 @@ class Rewriter:
         code = self.drop_debug_only(code)
         code = self.char_indices_loops(code)
         code = self.enumerate_msg_only(code, force_counter=bool(opts.get('counter')))
+        code = self.iter_skip_loops(code)
         if opts.get('fmtcat'):
             code = self.format_cat(code, opts['fmtcat'])
         if opts.get('maperr'):
@@ -1180,6 +1274,7 @@ class Rewriter:
         code = self.let_chains(code)
         code = self.local_const_strs(code)
         code = self.local_const_slices(code)
+        code = self.map_collect_loops(code)
         if not opts.get('no_while_let'):
             code = self.while_let(code)
         if not opts.get('no_str_match'):
@@ -1396,6 +1491,8 @@ def to_spec(expr: str) -> str:
     # X.contains(P) / X.vx_contains(P)
     e = re.sub(r'([A-Za-z_][A-Za-z0-9_.]*)\s*\.\s*(?:vx_)?contains\s*\(\s*("(?:\\.|[^"\\])*")\s*\)', r'vx::contains_seq(\1@, \2@)', e)
     e = re.sub(r'([A-Za-z_][A-Za-z0-9_.]*)\s*\.\s*(?:vx_)?starts_with\s*\(\s*("(?:\\.|[^"\\])*")\s*\)', r'vx::is_sub_at(\1@, \2@, 0)', e)
+    # X.starts_with(name) with a string variable (two or more letters; a single letter is a char by the convention below)
+    e = re.sub(r'([A-Za-z_][A-Za-z0-9_.]*)\s*\.\s*(?:vx_)?starts_with\s*\(\s*&?\s*([a-z_][a-z0-9_]+)\s*\)', r'vx::is_sub_at(\1@, \2@, 0)', e)
     # STR.contains(c) with a single-letter (char) argument
     e = re.sub(r'([A-Za-z_][A-Za-z0-9_.]*)\s*\.\s*(?:vx_)?contains\s*\(\s*([a-z])\s*\)', r'vx::contains_seq(\1@, seq![\2])', e)
     e = e.replace('.as_str()@', '@')
@@ -1506,7 +1603,8 @@ METHOD_RULES = [
     (r'\.\s*format\s*\(\s*"%y%m%d"\s*\)', 'vx_fmt_yymmdd()', 'rename_whole', 'chrono NaiveDate.format("%y%m%d")->vx_fmt_yymmdd'),
     (r'\.\s*format\s*\(\s*"%H%M"\s*\)', 'vx_fmt_hhmm()', 'rename_whole', 'chrono NaiveTime.format("%H%M")->vx_fmt_hhmm'),
     (r'\(\s*&\s*([A-Za-z_][A-Za-z0-9_.]*)\s+as\s+&\s*dyn\s+Any\s*\)\s*\.\s*downcast_ref\s*::\s*<\s*(?:[A-Za-z_0-9]+\s*::\s*)*([A-Za-z_0-9]+)\s*>\s*\(\s*\)', r'crate::anyx::downcast_\2(&\1)', 'replace_whole', '(&x as &dyn Any).downcast_ref::<T>()->anyx::downcast_T(&x)'),
-    (r'\.\s*parse\s*::\s*<\s*(u32|i32|u8|u16|usize|f64)\s*>\s*\(', r'vx_parse_\1', 'rename', 'str.parse::<T>->vx_parse_T'),
+    (r'\.\s*parse\s*::\s*<\s*(u32|i32|u8|u16|u64|usize|f64)\s*>\s*\(', r'vx_parse_\1', 'rename', 'str.parse::<T>->vx_parse_T'),
+    (r'\.\s*trim_end_matches\s*\(\s*\[\s*(\x27[^\x27]+\x27)\s*,\s*(\x27[^\x27]+\x27)\s*\]\s*\)', r'vx_trim_end_matches2(\1, \2)', 'replace_tail', 'str.trim_end_matches([c1, c2])->vx_trim_end_matches2'),
     (r'\.\s*trim_start_matches\s*\(\s*\|\s*c\s*:\s*char\s*\|\s*c\s*\.\s*is_whitespace\s*\(\s*\)\s*\)', 'vx_trim_start()', 'rename_whole', 'str.trim_start_matches(is_whitespace)->vx_trim_start'),
     (r'\.\s*chars\s*\(\s*\)\s*\.\s*nth\s*\(', 'vx_nth_char', 'rename', 'str.chars().nth->vx_nth_char'),
     (r'\.\s*chars\s*\(\s*\)\s*\.\s*last\s*\(', 'vx_last_char', 'rename', 'str.chars().last->vx_last_char'),
@@ -1523,6 +1621,18 @@ METHOD_RULES = [
     for m in ('starts_with', 'ends_with', 'contains', 'find', 'rfind', 'strip_prefix', 'trim', 'trim_start', 'trim_end',
               'trim_end_matches', 'trim_start_matches', 'to_uppercase', 'to_lowercase', 'split_at', 'join', 'insert', 'remove')
 ]
+
+
+class _Groups:
+    """a regex match with its groups renumbered (keeps the rest of a rule unchanged when the pattern grows)"""
+    def __init__(self, mm, remap):
+        self._mm, self._remap = mm, remap
+    def group(self, k):
+        return self._mm.group(self._remap.get(k, k))
+    def start(self, *a):
+        return self._mm.start(*a)
+    def end(self, *a):
+        return self._mm.end(*a)
 
 
 # --------------------------------------------------------------------------------------
